@@ -1,8 +1,120 @@
-(* C01 - compiled clauses compute exactly Prolog's answers, in order. (under construction) *)
-From Coq Require Import List Arith.
+(* C01 - compiled clauses compute exactly Prolog's answers, in order.
+   Only statements; every proof is `exact <lemma>`. *)
+From Coq Require Import String.
+From Coq Require Import List Arith ZArith.
 Import ListNotations.
-From YP Require Import Base.Str Lang.Ast Comp.IR Comp.CompileBody Comp.CompileTotal.
+From YP Require Import Base.Str Term.Term Unify.Unify Lang.Ast Comp.IR Comp.CompileBody Comp.CompileClause Comp.CompileTotal
+  Sem.Res Sem.RefSem Sem.IRSem Sem.ControlCorrect Sem.Machine Sem.ClauseSem Sem.ProgramCorrect Sem.SpecLemmas Sem.Fresh Sem.SldR Sem.RenameSim Sem.Main.
+From YP Require Import Unify.Rename.
 
-Theorem C01_compile_body_total : forall b cnt, exists code cnt', comp (fuel_body b) b cnt = Some (code, cnt').
-Proof. exact comp_total_exists. Qed.
-Print Assumptions C01_compile_body_total.
+(* the model compiler produces code for every program (it never gets stuck, whatever the nesting) *)
+Theorem C01_compile_program_total : forall p, compile_program p <> None.
+Proof. exact compile_program_total. Qed.
+Print Assumptions C01_compile_program_total.
+
+(* MAIN THEOREM.  For every program P (any number of predicates, arities, clauses; heads with repeated,
+   nested and anonymous variables; bodies over calls, =, \=, true, fail and all control constructs; good_program only
+   says that the bodies contain no internal $CUTIF marker, which source text cannot produce), for every call depth n,
+   every predicate name, every argument list and every state (store of active bindings + next fresh cell):
+   running the emitted code of the compiled program (Machine.query: the model of the generated Python -
+   nested for-loops over unify()/query(), the doBreak / cutIfN flag protocol, return for cut, variable()
+   allocations) yields EXACTLY the answer sequence - same stores, same order, same multiplicity, same
+   way of ending (normally or by the depth error) - of the clause-level reference semantics solveA
+   (ClauseSem.v: clauses in source order, fresh cells for the clause variables, head unification left to
+   right by the engine's unification, body under the textbook control semantics RefSem.sem, cut local
+   to the predicate). *)
+Theorem C01_compiled_program_computes_reference : forall n p ir,
+  compile_program p = Some ir -> good_program p ->
+  forall name args s, query n ir name args s = solveA n p name args s.
+Proof. exact machine_computes_clause_semantics. Qed.
+Print Assumptions C01_compiled_program_computes_reference.
+
+(* END-TO-END.  SldR.solveR is SLD resolution in its plainest form: every clause is renamed apart (all its
+   variables get fresh cells), the head is unified with the goal by the engine's unification (a most general
+   unifier: C02), clauses in source order, bodies depth-first and left to right under the textbook control
+   semantics, cut local to the predicate.  For every program,
+   every depth, predicate, argument list and well-formed state: the compiled program's answer sequence and
+   solveR's have the same length and end the same way, and the k-th answers agree on every cell that
+   existed before the query up to an injective renaming p' of the cells created during the query, p' being
+   the identity on the old cells - i.e. the same bindings up to renaming of unbound variables, including the
+   aliasing between them (same_answer). *)
+Theorem C01_compiled_program_is_sld : forall n p ir,
+  compile_program p = Some ir -> good_program p ->
+  forall name args s, wf (sto s) -> inv s -> Forall (bounded (nxt s)) args ->
+  Forall2 (same_answer s) (fst (query n ir name args s)) (fst (solveR n p name args s)) /\
+  snd (query n ir name args s) = snd (solveR n p name args s).
+Proof. exact compiled_program_is_sld. Qed.
+Print Assumptions C01_compiled_program_is_sld.
+
+(* the same between the two references: naming a goal argument versus renaming every variable apart *)
+Theorem C01_naming_equals_renaming_apart : forall n prog name args s,
+  wf (sto s) -> inv s -> Forall (bounded (nxt s)) args ->
+  Forall2 (same_answer s) (fst (solveA n prog name args s)) (fst (solveR n prog name args s)) /\
+  snd (solveA n prog name args s) = snd (solveR n prog name args s).
+Proof. exact naming_equals_renaming_apart. Qed.
+Print Assumptions C01_naming_equals_renaming_apart.
+
+(* The rewriting compiler for clause bodies is correct for every interpretation of the calls and every
+   state type: the code emitted for a body yields exactly the answers of the reference control semantics,
+   in order, and ends the same way (return <-> cut, exception <-> error). *)
+Theorem C01_body_code_correct : forall (S : Type) (I : str -> list sterm -> S -> list S * bool)
+  (J : expr -> S -> list S * bool) (assign : str -> expr -> S -> S),
+  (forall f args s, J (query_expr f args) s = I f args s) ->
+  forall n b cnt code cnt',
+  comp n b cnt = Some (code, cnt') -> nomark b = true ->
+  forall s, (let '(ys, k) := run_function J assign code s in (ys, fin_of_compl k)) = sem I b s.
+Proof. exact control_correct_function. Qed.
+Print Assumptions C01_body_code_correct.
+
+(* naming a goal argument (X := arg_i, step 1 of solveA) is what unifying it with a fresh variable does:
+   that unification cannot fail, binds only the fresh variable (or the goal's unbound variable to it), and
+   makes both denote the same term *)
+Theorem C01_fresh_head_variable : forall n s a x,
+  wf s -> lookup x s = None -> occurs x (den s a) = false ->
+  exists s', unify (S n) s a (TVar x) = UOk s' /\ wf s' /\ den s' (TVar x) = den s' a /\
+             (s' = (x, den s a) :: s \/ exists v, den s a = TVar v /\ s' = (v, TVar x) :: s).
+Proof. exact fresh_head_variable. Qed.
+Print Assumptions C01_fresh_head_variable.
+
+(* "Every clause activation works on fresh variables (recursive and repeated calls never share bindings)
+   and every `_` is a distinct variable."  inv s = every cell mentioned by the store is below the allocation
+   counter nxt s.  From such a state and goal arguments below the counter, every answer state again
+   satisfies inv, its counter has only grown, its store extends the store of the call.  So the cells that a
+   clause activation allocates (nxt s, nxt s + 1, ...) occur neither in the store nor in the goal, and no
+   later activation on the search path gets them again. *)
+Theorem C01_activations_use_fresh_cells : forall n p name args s,
+  inv s -> Forall (bounded (nxt s)) args ->
+  forall x, In x (fst (solveA n p name args s)) -> inv x /\ nxt s <= nxt x /\ ext (sto s) (sto x).
+Proof. exact solveA_fresh. Qed.
+Print Assumptions C01_activations_use_fresh_cells.
+
+(* the i-th variable of a clause's variable list gets cell k + i (distinct variables - in particular the
+   x1, x2, ... that the front end writes for the occurrences of `_` - get distinct cells) *)
+Theorem C01_distinct_variables_distinct_cells : forall vars r k,
+  fresh_env vars r k = (rev (combine (map pyvar vars) (map TVar (seq k (length vars)))) ++ r, k + length vars).
+Proof. exact fresh_env_cells. Qed.
+Print Assumptions C01_distinct_variables_distinct_cells.
+
+(* the call of a predicate never propagates the callee's cut *)
+Theorem C01_call_never_cuts : forall call f args c,
+  snd (sem (leafA call) (BCall f args) c) = FNorm \/ snd (sem (leafA call) (BCall f args) c) = FErr.
+Proof. exact call_never_cuts. Qed.
+Print Assumptions C01_call_never_cuts.
+
+(* non-vacuity: member/2 is a good program, compiles, and mem(Q0,[a,b,c]) has three answers *)
+Local Open Scope string_scope.
+Definition mem_prog : program :=
+  [ {| c_name := d "mem"; c_args := [SVar (d "X"); SPair (SVar (d "X")) (SVar (d "x1"))]; c_body := BTrue |};
+    {| c_name := d "mem"; c_args := [SVar (d "X"); SPair (SVar (d "x2")) (SVar (d "T"))];
+       c_body := BCall (d "mem") [SVar (d "X"); SVar (d "T")] |} ].
+Example C01_nonvacuous :
+  good_program mem_prog /\
+  exists ir, compile_program mem_prog = Some ir /\
+  map (fun x => den (sto x) (TVar 0))
+      (fst (query 10 ir (d "mem") [TVar 0; mk_list [TAtom (d "a"); TAtom (d "b"); TAtom (d "c")]] {| sto := []; nxt := 1 |}))
+  = [TAtom (d "a"); TAtom (d "b"); TAtom (d "c")].
+Proof.
+  split.
+  - repeat constructor.
+  - eexists. split; [vm_compute; reflexivity|]. vm_compute. reflexivity.
+Qed.
